@@ -219,7 +219,7 @@ class WalletH:
             'change': {'gap': 2, 'maximum_uses_per_address': 1}}
 
     def __init__(self, coins=(), strategy=None, fee_per_byte=50, fee_per_name_char=0, atomic_jobs=True,
-                 used_change=0, second_account=False, perm=0, choice=0):
+                 used_change=0, second_account=False, perm=0, choice=0, layout='one'):
         global _SCRIPT
         import lbry.wallet.coinselection as cs_mod
         import lbry.wallet.account as acc_mod
@@ -241,6 +241,7 @@ class WalletH:
             self.wallet = Wallet()
             self.coins = [c if isinstance(c, Coin) else Coin.from_spec(c) for c in coins]
             self.second_account = second_account or any('other' in c.flags for c in self.coins)
+            self.layout = layout
             self.loop.run(self._setup(used_change))
             self.conn = self.ledger.db.db.writer_connection
         except BaseException:
@@ -272,14 +273,35 @@ class WalletH:
             await self.account2.ensure_address_gap()
             other_addresses = await self.account2.receiving.get_addresses(order_by='n asc')
         h160 = ledger.address_to_hash160
-        # one funding transaction per confirmation state; purchases get their own (payment + data)
+        # funding layout: how the coins of one confirmation state are spread over funding transactions
+        #   'one'         all in one transaction (purchases always get their own: payment + data)
+        #   'per-coin'    one transaction per coin
+        #   'interleaved' coins alternate between T1 and T2 in amount order (of three: T1 smallest + largest, T2 the middle)
+        #   'pairs'       two outputs per transaction, in amount order
+        part = {}
+        if self.layout != 'one':
+            by_state = {}
+            for c in self.coins:
+                if c.kind != 'purchase':
+                    by_state.setdefault(c.state, []).append(c)
+            for cs in by_state.values():
+                ranked = sorted(range(len(cs)), key=lambda i: (cs[i].amount, i))
+                for rank, i in enumerate(ranked):
+                    if self.layout == 'per-coin':
+                        part[id(cs[i])] = rank
+                    elif self.layout == 'interleaved':
+                        part[id(cs[i])] = rank % 2
+                    elif self.layout == 'pairs':
+                        part[id(cs[i])] = rank // 2
+                    else:
+                        raise ValueError(self.layout)
         groups = {}
         for c in self.coins:
-            key = (c.state, id(c) if c.kind == 'purchase' else 0)
+            key = (c.state, id(c) if c.kind == 'purchase' else 0, part.get(id(c), 0))
             groups.setdefault(key, []).append(c)
         self.funding = []
         serial = 0
-        for (state, _), cs in groups.items():
+        for (state, _, _), cs in groups.items():
             serial += 1
             outs = []
             for c in cs:
